@@ -383,20 +383,22 @@ type c14KG struct {
 func TestC14KeyGen(t *testing.T) {
 	r := ev.New(t, "C14")
 	var cases []c14KG
-	lens := []int{}
-	for l := 12; l <= 40; l += 2 { // small lengths: feasibility decided by the harness' own enumeration
-		if keyLenFeasible(l) {
-			lens = append(lens, l)
-		} else {
+	// small lengths: every even length 12..72 whose feasibility the harness' own enumeration confirms
+	// (enumeration is only affordable up to 20-bit primes; above that feasibility is certain), many keys each
+	smallReps := ev.Scale(10, 40)
+	for l := 12; l <= 72; l += 2 {
+		if l <= 40 && !keyLenFeasible(l) {
 			r.AddNote("infeasible_small_lengths_skipped", 1)
+			continue
+		}
+		for rep := 0; rep < smallReps; rep++ {
+			cases = append(cases, c14KG{Bits: l, Conc: 1 + (l/2+rep)%4})
 		}
 	}
-	lens = append(lens, 48, 64, 96, 128, 256)
-	reps := ev.Scale(1, 8)
+	lens := []int{96, 128, 192, 256, 384, 512}
+	reps := ev.Scale(1, 5)
 	if ev.Tier() == "thorough" {
-		lens = append(lens, 512, 768, 1024)
-	} else {
-		lens = append(lens, 512)
+		lens = append(lens, 768, 1024)
 	}
 	for rep := 0; rep < reps; rep++ {
 		for i, l := range lens {
